@@ -54,7 +54,6 @@ void F__ZNSt16invalid_argumentD1Ev(void*a){}
 /* libstdc++ (cxx11 ABI) basic_string<char>: the three out-of-line members the inlined header code of the sentinel /
    coordinate-width messages calls.  Implemented faithfully on the ABI layout {char*; size_t; union{char[16]; size_t cap}} so that
    the inlined header code that follows (which reads _M_p/_M_string_length) sees a valid string. */
-struct rt_string { unsigned char *p; unsigned long len; union { unsigned char buf[16]; unsigned long cap; } u; };
 static void rt_str_set(struct rt_string *s, unsigned char *tmp, unsigned long n) {
   unsigned long cap = (s->p == s->u.buf) ? 15UL : s->u.cap;
   if (n <= cap) { for (unsigned long i = 0; i < n; i++) s->p[i] = tmp[i]; free(tmp); }
